@@ -691,6 +691,7 @@ func (p *popCfg) popRequestItem(x *kmip.RequestBatchItem) {
 		if r.Bool() {
 			op = kmip.Operation(uint32(r.U64()) | 0x100)
 		}
+		op = p.unregisteredOp("op.req.unregistered", op)
 		pl := kmip.NewUnknownPayload(op, p.genTTLVStruct()...)
 		x.Operation, x.RequestPayload = op, pl
 		p.count("op.req.unknown")
@@ -711,6 +712,32 @@ func (p *popCfg) popRequestItem(x *kmip.RequestBatchItem) {
 	p.fillOthers(reflect.ValueOf(x).Elem(), "Operation", "UniqueBatchItemID", "RequestPayload", "MessageExtension")
 }
 
+// unregisteredOp (plan engine only; no random draw): every other unknown operation is a STANDARD operation code
+// for which the library registers no payload type (a gap of the registry below its highest code), in turn.
+func (p *popCfg) unregisteredOp(class string, op kmip.Operation) kmip.Operation {
+	if p.cyc == nil {
+		return op
+	}
+	known := map[uint32]bool{}
+	top := uint32(0)
+	for _, o := range p.s.Ops {
+		known[uint32(o.Op)] = true
+		top = max(top, uint32(o.Op))
+	}
+	var gaps []uint32
+	for c := uint32(1); c < top; c++ {
+		if !known[c] {
+			gaps = append(gaps, c)
+		}
+	}
+	k := p.cyc.next(class, 2*len(gaps)+1)
+	if k%2 == 0 || len(gaps) == 0 {
+		return op
+	}
+	p.count(fmt.Sprintf("op.gap.%d", gaps[k/2]))
+	return kmip.Operation(gaps[k/2])
+}
+
 func (p *popCfg) popResponseItem(x *kmip.ResponseBatchItem) {
 	r := p.r
 	*x = kmip.ResponseBatchItem{}
@@ -718,6 +745,7 @@ func (p *popCfg) popResponseItem(x *kmip.ResponseBatchItem) {
 	failed := !directed && r.Chance(1, 4)
 	if !directed && r.Chance(1, 8) {
 		op := kmip.Operation(0x2C + r.Intn(20))
+		op = p.unregisteredOp("op.resp.unregistered", op)
 		x.Operation = op
 		if !failed {
 			x.ResponsePayload = kmip.NewUnknownPayload(op, p.genTTLVStruct()...)
